@@ -412,7 +412,8 @@ fn apply_parent_ready(
     if &new_hash == parent_hash {
         debug!("parent is ready, continuing with same parent");
     } else {
-        assert_ne!(&new_slot, parent_slot);
+        // NOTE: the ready parent may well be in the same slot as the block we
+        // optimistically built on, if the previous leader equivocated
         debug!(
             "changed parent from {} in slot {} to {} in slot {}",
             parent_hash.short_hex(),
